@@ -195,6 +195,9 @@ def generate(tier, rng):
     for cwd in ['w/proj', 'w', '']:
         for i in range(0, len(strs), 1500):
             yield {'kind': 'paths', 'cwd': cwd, 'strs': strs[i:i + 1500], 'pairs': []}
+    tilde = [s for s in strs if '~' in s] + ['~/' + s for s in strs if len(s) <= 6] + ['~' + s for s in strs if len(s) <= 4]
+    for hm in ['/', '/h/', '//h', '/h//', '/a/../h', 'rel/home']:      # expanduser with unusual HOME values
+        yield {'kind': 'paths', 'cwd': 'w', 'home': hm, 'strs': tilde, 'pairs': []}
     short = [s for s in strs if s.count('/') <= 3 and len(s) <= 7]
     pairs = [[a, b] for a in short for b in short]
     for i in range(0, len(pairs), 20000):
@@ -284,6 +287,7 @@ def run_impl(case):
     home = S + '/home'
     if case['kind'] == 'paths':
         cwd = os.path.join(S, case['cwd']) if case['cwd'] else S
+        home = case.get('home') or home
         rows = []
         with fsobs.environment(cwd=cwd, home=home):
             for s in case['strs']:
